@@ -131,38 +131,6 @@ EFULL((__CPROVER_old(r->offset) <= g_wk && g_wk < r->offset) ==> g_w.k_ok)
 EFULL((disable_extensions && __CPROVER_old(r->offset) <= g_wk && g_wk < r->offset) ==> C05_ISWS(r->data[g_wk]))
 __CPROVER_assigns(verif_exc, r->offset, C05_GHOSTS_LEAF);
 
-/* ========================================================================================== JSON::parse (reader)
- * O-1 (also the induction hypothesis for the recursive calls inside the container loops): */
-#define C05_LIT_NULL(k) ((k) == 0 ? 'n' : (k) == 1 ? 'u' : 'l')
-#define C05_LIT_TRUE(k) ((k) == 0 ? 't' : (k) == 1 ? 'r' : (k) == 2 ? 'u' : 'e')
-#define C05_LIT_FALSE(k) ((k) == 0 ? 'f' : (k) == 1 ? 'a' : (k) == 2 ? 'l' : (k) == 3 ? 's' : 'e')
-#define C05_CONSUMED(r) ((r)->offset - g_j.rootoff)
-void JSON_parse(StringReader* r, bool disable_extensions, JVal* ret)
-C05_RD_REQ(r) C05_RET_REQ
-__CPROVER_requires(g_j.pc == C05_PEEK(r))
-C05_TOTAL(r)
-/* success => at least one byte consumed.  Observation: a lone '+' is taken as the integer 0 and consumes nothing. */
-__CPROVER_ensures(verif_exc == 0 ==> (r->offset > __CPROVER_old(r->offset) || __CPROVER_old(g_j.pc) == '+'))
-__CPROVER_ensures(__CPROVER_old(g_j.pc) == -1 ==> verif_exc == EXC_out_of_range)
-__CPROVER_ensures((C05_ISCLOSER(__CPROVER_old(g_j.pc)) && __CPROVER_old(g_j.cmk) == 0) ==> verif_exc == EXC_parse_error)
-/* the kind of the value is decided by the first byte after the whitespace */
-EFULL(verif_exc == 0 ==> ((g_j.root == '"') == (ret->kind == JV_STRING) && (g_j.root == '{') == (ret->kind == JV_DICT) && (g_j.root == '[') == (ret->kind == JV_LIST)))
-__CPROVER_ensures(verif_exc == 0 ==> ret->is_string == (ret->kind == JV_STRING))
-EFULL(verif_exc == 0 ==> ((g_j.root == '-' || g_j.root == '+' || C05_ISDIGIT(g_j.root)) == (ret->kind == JV_INT || ret->kind == JV_FLOAT)))
-/* constants (O-2): null / true / false are spelled out, or -- extensions on only -- abbreviated to their first letter
- * (every byte of the literal at the ghost index g_j.cmk) */
-EFULL((verif_exc == 0 && ret->kind == JV_NULL) ==> (C05_CONSUMED(r) == 4 || (!disable_extensions && C05_CONSUMED(r) == 1)))
-EFULL((verif_exc == 0 && ret->kind == JV_BOOL && ret->b) ==> (C05_CONSUMED(r) == 4 || (!disable_extensions && C05_CONSUMED(r) == 1)))
-EFULL((verif_exc == 0 && ret->kind == JV_BOOL && !ret->b) ==> (C05_CONSUMED(r) == 5 || (!disable_extensions && C05_CONSUMED(r) == 1)))
-EFULL((verif_exc == 0 && ret->kind == JV_NULL && __CPROVER_old(g_j.cmk) < C05_CONSUMED(r)) ==> r->data[g_j.rootoff + __CPROVER_old(g_j.cmk)] == C05_LIT_NULL(__CPROVER_old(g_j.cmk)))
-EFULL((verif_exc == 0 && ret->kind == JV_BOOL && ret->b && __CPROVER_old(g_j.cmk) < C05_CONSUMED(r)) ==> r->data[g_j.rootoff + __CPROVER_old(g_j.cmk)] == C05_LIT_TRUE(__CPROVER_old(g_j.cmk)))
-EFULL((verif_exc == 0 && ret->kind == JV_BOOL && !ret->b && __CPROVER_old(g_j.cmk) < C05_CONSUMED(r)) ==> r->data[g_j.rootoff + __CPROVER_old(g_j.cmk)] == C05_LIT_FALSE(__CPROVER_old(g_j.cmk)))
-C05_ASSIGNS(r);
-#define C05_PARSE_ENTRY
-/* the blocks' contracts havoc g_j: the dispatcher keeps its ghosts in locals and mirrors them after every call */
-#define C05_PARSE_SYNC (g_j.root = verif_root, g_j.rootoff = verif_rootoff)
-#define C05_PARSE_ROOT int verif_root = root_type_ch; size_t verif_rootoff = r->offset; C05_PARSE_SYNC
-
 /* ============================================================================================ container loops (O-3)
  * Abstract token stream: structural bytes, end of input, and "a value starts here" (decided by the child call, which is
  * the parser's own contract).  5+ state DFA, written from RFC 8259 section 4/5 + the trailing-comma extension:
@@ -411,5 +379,43 @@ __CPROVER_ensures(C05_EXCSET)
 __CPROVER_ensures(verif_exc == 0 ==> (g_j.stage == 2 && g_j.fin_off == s->size))
 __CPROVER_ensures((g_j.stage == 2 && g_j.fin_off != s->size) ==> verif_exc == EXC_parse_error)
 __CPROVER_assigns(verif_exc, __CPROVER_object_whole(ret), C05_GHOSTS);
+
+/* ========================================================================================== JSON::parse (reader)
+ * O-1 (also the induction hypothesis for the recursive calls inside the container loops): */
+#define C05_LIT_NULL(k) ((k) == 0 ? 'n' : (k) == 1 ? 'u' : 'l')
+#define C05_LIT_TRUE(k) ((k) == 0 ? 't' : (k) == 1 ? 'r' : (k) == 2 ? 'u' : 'e')
+#define C05_LIT_FALSE(k) ((k) == 0 ? 'f' : (k) == 1 ? 'a' : (k) == 2 ? 'l' : (k) == 3 ? 's' : 'e')
+#define C05_CONSUMED(r) ((r)->offset - g_j.rootoff)
+void JSON_parse(StringReader* r, bool disable_extensions, JVal* ret)
+C05_RD_REQ(r) C05_RET_REQ
+__CPROVER_requires(g_j.pc == C05_PEEK(r))
+C05_TOTAL(r)
+/* success => at least one byte consumed.  Observation: a lone '+' is taken as the integer 0 and consumes nothing. */
+__CPROVER_ensures(verif_exc == 0 ==> (r->offset > __CPROVER_old(r->offset) || __CPROVER_old(g_j.pc) == '+'))
+__CPROVER_ensures(__CPROVER_old(g_j.pc) == -1 ==> verif_exc == EXC_out_of_range)
+__CPROVER_ensures((C05_ISCLOSER(__CPROVER_old(g_j.pc)) && __CPROVER_old(g_j.cmk) == 0) ==> verif_exc == EXC_parse_error)
+/* the kind of the value is decided by the first byte after the whitespace */
+EFULL(verif_exc == 0 ==> ((g_j.root == '"') == (ret->kind == JV_STRING) && (g_j.root == '{') == (ret->kind == JV_DICT) && (g_j.root == '[') == (ret->kind == JV_LIST)))
+__CPROVER_ensures(verif_exc == 0 ==> ret->is_string == (ret->kind == JV_STRING))
+EFULL(verif_exc == 0 ==> ((g_j.root == '-' || g_j.root == '+' || C05_ISDIGIT(g_j.root)) == (ret->kind == JV_INT || ret->kind == JV_FLOAT)))
+/* constants (O-2): null / true / false are spelled out, or -- extensions on only -- abbreviated to their first letter
+ * (every byte of the literal at the ghost index g_j.cmk) */
+/* O-4, extent of the value (passed through from the branch that parsed it): containers end right behind the bracket the DFA accepted,
+ * strings behind the closing quote, numbers where the RFC automaton has no transition (longest match) */
+EFULL((verif_exc == 0 && (ret->kind == JV_LIST || ret->kind == JV_DICT)) ==> (g_j.cq == CQ_ACC && r->offset == g_j.cend))
+EFULL((verif_exc == 0 && ret->kind == JV_STRING) ==> g_j.sq == SQ_END)
+EFULL((verif_exc == 0 && (ret->kind == JV_INT || ret->kind == JV_FLOAT) && g_j.nq != NQ_DEAD) ==> !C05_NUM_HAS_NEXT(g_j.nq, g_j.nc, g_j.nc2, disable_extensions))
+EFULL((verif_exc == 0 && ret->kind == JV_NULL) ==> (C05_CONSUMED(r) == 4 || (!disable_extensions && C05_CONSUMED(r) == 1)))
+EFULL((verif_exc == 0 && ret->kind == JV_BOOL && ret->b) ==> (C05_CONSUMED(r) == 4 || (!disable_extensions && C05_CONSUMED(r) == 1)))
+EFULL((verif_exc == 0 && ret->kind == JV_BOOL && !ret->b) ==> (C05_CONSUMED(r) == 5 || (!disable_extensions && C05_CONSUMED(r) == 1)))
+EFULL((verif_exc == 0 && ret->kind == JV_NULL && __CPROVER_old(g_j.cmk) < C05_CONSUMED(r)) ==> r->data[g_j.rootoff + __CPROVER_old(g_j.cmk)] == C05_LIT_NULL(__CPROVER_old(g_j.cmk)))
+EFULL((verif_exc == 0 && ret->kind == JV_BOOL && ret->b && __CPROVER_old(g_j.cmk) < C05_CONSUMED(r)) ==> r->data[g_j.rootoff + __CPROVER_old(g_j.cmk)] == C05_LIT_TRUE(__CPROVER_old(g_j.cmk)))
+EFULL((verif_exc == 0 && ret->kind == JV_BOOL && !ret->b && __CPROVER_old(g_j.cmk) < C05_CONSUMED(r)) ==> r->data[g_j.rootoff + __CPROVER_old(g_j.cmk)] == C05_LIT_FALSE(__CPROVER_old(g_j.cmk)))
+C05_ASSIGNS(r);
+#define C05_PARSE_ENTRY
+/* the blocks' contracts havoc g_j: the dispatcher keeps its ghosts in locals and mirrors them after every call */
+#define C05_PARSE_SYNC (g_j.root = verif_root, g_j.rootoff = verif_rootoff)
+#define C05_PARSE_ROOT int verif_root = root_type_ch; size_t verif_rootoff = r->offset; C05_PARSE_SYNC
+
 
 #endif
